@@ -834,7 +834,7 @@ for (fi, ri), out in zip(xi, drv.run(xl)):
     if not spec["cplx"]:
         vals = vals.real + 0j
     if not same_image(vals[keep], np.asarray(run["impl"])[keep], run["atol"]):
-        chk.violation("driver-crosscheck", "extracted OCaml model and vm_compute model disagree on a mean-kernel frame",
+        chk.violation("driver-crosscheck", "the implementation's image of a mean-kernel frame differs from the extracted OCaml model (driver cross-check: on the unchanged tree this model, the vm_compute model and the implementation agree)",
                       dict(kernel="/".join(KNAME[run["kernel"]]), model_ocaml=vals, impl=run["impl"],
                            correspondence="ocaml/C02/driver.exe vs coqc vm_compute (both from Model/Das.v)"),
                       failing_input_found=False)
